@@ -187,6 +187,9 @@ func NewReader(src BlockSource, name string) (*Reader, error) {
 
 	r.objectIDLen = int(r.footer.ObjOffset & ((1 << 5) - 1))
 	r.footer.ObjOffset >>= 5
+	if r.footer.ObjOffset > 0 && (r.objectIDLen == 0 || r.objectIDLen > r.hashSize) {
+		return nil, fmt.Errorf("reftable: invalid object ID length %d", r.objectIDLen)
+	}
 
 	wantCRC32 := crc32.ChecksumIEEE(footBlock[:footerSize(version)-4])
 	if gotCRC32 != wantCRC32 {
@@ -646,6 +649,9 @@ func (r *Reader) refsForLinear(oid []byte) (*Iterator, error) {
 }
 
 func (r *Reader) refsForIndexed(oid []byte) (*Iterator, error) {
+	if len(oid) < r.objectIDLen {
+		return &Iterator{&emptyIterator{}}, nil
+	}
 	want := &objRecord{HashPrefix: oid[:r.objectIDLen]}
 
 	it, err := r.seek(want)
